@@ -95,9 +95,12 @@ const UNRELATED: [&str; 4] = [
 fn ask(u: &mut Uci, p: &Pos, depth: u32) -> Result<(Option<f64>, Option<String>), String> {
     let mark = u.log.len();
     u.send(&format!("position fen {}", p.fen()));
-    u.send(&format!("go depth {}", depth));
-    if u.wait_out_prefix(Duration::from_secs(60), "bestmove").is_none() {
-        return Err(format!("go depth {} on '{}' was not answered within 60 s\n{}", depth, p.fen(), u.transcript()));
+    // with an explicit, generous movetime: otherwise the engine's default time limit (4 s) may end the
+    // search before the depth is reached on a loaded machine (allocating the memory alone can take seconds),
+    // and a shallower answer would be mistaken for a difference caused by the previous game
+    u.send(&format!("go depth {} movetime 3600000", depth));
+    if u.wait_out_prefix(Duration::from_secs(600), "bestmove").is_none() {
+        return Err(format!("go depth {} on '{}' was not answered within 600 s of silence\n{}", depth, p.fen(), u.transcript()));
     }
     let mut score = None;
     let mut best = None;
@@ -352,16 +355,86 @@ impl Prop for NewGameMany {
     }
 }
 
+// ------------------------------------------------- the position after ucinewgame
+
+/// The first position command of a new game must be understood on its own, however it relates to
+/// the last one of the previous game (the same line continued, shortened, repeated ...).
+#[derive(Debug, Clone, Serialize, Deserialize)]
+pub struct TrackCase {
+    pub first: super::c07::PosSpec,
+    /// 0-4 as in c07::related: taken back, continued, repeated, bare start, last move replaced
+    pub relation: u8,
+    pub n: u8,
+    pub picks: Vec<u16>,
+    pub go_before_newgame: bool,
+}
+
+pub struct NewGameTracking;
+
+impl Prop for NewGameTracking {
+    type Case = TrackCase;
+    fn name(&self) -> &'static str {
+        "ucinewgame_position_tracking"
+    }
+    fn parallelism(&self, ctx: &Ctx) -> usize {
+        ctx.threads.min(8)
+    }
+    fn max_shrink_iters(&self) -> u32 {
+        40
+    }
+    fn strategy(&self, _: &Ctx) -> BoxedStrategy<TrackCase> {
+        (super::c07::pos_spec_strategy(), 0u8..5, any::<u8>(), prop::collection::vec(any::<u16>(), 0..4), any::<bool>())
+            .prop_map(|(first, relation, n, picks, go_before_newgame)| TrackCase { first, relation, n, picks, go_before_newgame })
+            .boxed()
+    }
+    fn test(&self, _: &Ctx, case: &TrackCase, loc: &mut Local) -> Result<(), String> {
+        let (_, text1) = super::c07::resolve(&case.first);
+        let (p2, text2) = super::c07::related(Some(&text1), case.relation, case.n, &case.picks);
+        let mut u = Uci::spawn()?;
+        u.send(&text1);
+        if case.go_before_newgame {
+            u.send("go depth 1");
+            u.send("stop");
+        }
+        u.send("ucinewgame");
+        u.send(&text2);
+        u.send("isready");
+        if u.wait_out(Duration::from_secs(60), "readyok").is_none() {
+            return Err(format!("isready after ucinewgame and position was not answered\n{}", u.transcript()));
+        }
+        u.send(".state");
+        let want = p2.fen();
+        let got = u.wait_for(Duration::from_secs(30), |l| matches!(l, Line::Err(s) if s.trim().split(' ').count() == 6 && s.contains('/')));
+        loc.eval();
+        match got.map(|i| u.log[i].clone()) {
+            Some(Line::Err(s)) if s.trim() == want => {}
+            Some(Line::Err(s)) => {
+                return Err(format!(
+                    "after ucinewgame the first position command of the new game leaves the engine at '{}', chess rules (and a fresh process) give '{}': the previous game's last position command still matters\n{}",
+                    s.trim(), want, u.transcript()
+                ))
+            }
+            _ => return Err(format!(".state printed no position\n{}", u.transcript())),
+        }
+        loc.class(["tracking:moves_taken_back", "tracking:continued", "tracking:repeated", "tracking:bare_start", "tracking:last_move_replaced"][(case.relation % 5) as usize]);
+        loc.nontrivial(&(text1.clone(), text2.clone()));
+        loc.sample(|| json!({"game_1": text1, "game_2": text2, "state": want}));
+        u.send("quit");
+        let _ = u.wait_exit(Duration::from_secs(30));
+        Ok(())
+    }
+}
+
 pub fn plan(ctx: &Ctx) -> Plan {
     let t = ctx.tier;
     Plan {
-        props: vec![(Box::new(NewGame), t.pick(60, 2_500)), (Box::new(NewGameMany), t.pick(16, 600))],
+        props: vec![(Box::new(NewGame), t.pick(60, 2_500)), (Box::new(NewGameMany), t.pick(16, 600)), (Box::new(NewGameTracking), t.pick(120, 4_000))],
         rule: "P = tablebase position (also colour-mirrored) with a mate in n = 1 or 3 plies through exactly one first move \
                m, every other first move needing at least n + 6 plies (every second case uses one of the rare n = 1 \
                targets, whose recorded successor is a mated root). Session: 1-5 x (position fen X, go depth 1-3, then \
                wait for bestmove / stop / nothing) with X among succ(P,m) (the position whose recording would hide the \
                mate), other successors of P, P itself and unrelated positions, optionally another position command, then \
-               ucinewgame, isready, position fen P, go depth n or n+1. The answer must be score cp >= 10000 and bestmove \
+               ucinewgame, isready, position fen P, go depth n or n+1 (sent with a one-hour movetime so that the engine's default time limit cannot cut the search short on a loaded machine). The answer must be score cp >= 10000 and bestmove \
                m, exactly what a freshly started control process answers for the same two commands; a case whose control \
                run misses the mate is discarded and counted (that would be C06's business). Non-trivial = distinct \
                sessions in which succ(P,m) was a search root before ucinewgame and that search's artifact had been \
@@ -369,7 +442,10 @@ pub fn plan(ctx: &Ctx) -> Plan {
                pool size RAYON_NUM_THREADS in {default, 1, 2, 3, 5, 6, 12, 24}: game 1 = for each of 8-48 targets, go depth 1 \
                on succ(P,m) and then go depth n..n+2 on P (the mate is then a repetition, the table says 'no mate'); \
                ucinewgame; game 2 = go depth n on every P: each answer must be the unique mate, unless a fresh process of \
-               the same pool size misses it too (discarded, counted).",
+               the same pool size misses it too (discarded, counted). Third part (ucinewgame_position_tracking): a position \
+               command, optionally a short search, ucinewgame, then a position command related to the first (same start; \
+               moves taken back, continued, repeated, bare start, last move replaced): .state must print the FEN chess \
+               rules define for the second command alone.",
         assumptions: &[
             "the oracle is seed-independent (the UCI client seeds itself from the OS); by C06 a fresh process finds these mates for every seed",
             "stale transposition-table content that does not change the answer is not observable by this oracle",
